@@ -155,7 +155,7 @@ def translate(repo=None):
         except OSError as e:
             return False, f"cannot read {hdr}.hpp: {e}"
         al = re.findall(r"new\s+char\s*\[\s*sizeof\(ItemBlock\)\s*\+\s*" + _SLOT + r"\s*\*\s*(\w+)\s*\]", src)
-        lo = re.findall(r"\*\s*end\s*=\s*(?:i|item)\s*\+\s*(\w+)\s*;", src)
+        lo = re.findall(r"\*\s*(?:const\s+)?end\s*=\s*(?:i|item)\s*\+\s*(\w+)\s*;", src)
         lo += re.findall(r"\(char\*\)\s*i\s*\+\s*(\w+)\s*\*\s*" + _SLOT, src)
         if len(al) != 1 or len(lo) != 1:
             return False, f"{hdr}.hpp: block allocation {al} / free-list threading loop {lo} not found (or not unique)"
@@ -1052,6 +1052,24 @@ def client_patterns(rng):
     return hs
 
 
+def life_eq(a, b):
+    """implementation line = model line, except for the POSITION of `Ft<b>` inside the event log of one op: the release of the table
+    of a hash container (a block without element slots - nothing is constructed in it) commutes with every element event, so
+    whether ~HashMap releases it before or after the items is no matter of C04; that it is released exactly once still is
+    (token present on both sides, ledger counters, no `!` mark)."""
+    if a == b:
+        return True
+
+    def norm(l):
+        parts = l.split(" # ")
+        if len(parts) < 3:
+            return l
+        toks = parts[2].split()
+        parts[2] = " ".join([t for t in toks if not re.fullmatch(r"Ft\d+", t)] + sorted(t for t in toks if re.fullmatch(r"Ft\d+", t)))
+        return " # ".join(parts)
+    return norm(a) == norm(b)
+
+
 def nontrivial(h, out):
     """distinct (set of op names, final contents) among histories with >= 3 ops whose last-but-one observation shows a non-empty container"""
     if len(h) < 3 or len(out) < 2:
@@ -1133,11 +1151,11 @@ def check(ctx):
         ctx.cov["samples"] = [" ; ".join(h) for h in (hs[-3:] + hs[len(hs) // 2: len(hs) // 2 + 2])]
         ref = make_reference(ctx.prop == "C05")
         args = [ctx.prop]
-        diffs = C.differential(ctx, harness, C.driver_path(DRIVER), hs, ref, C.default_eq, nontrivial=nontrivial,
+        diffs = C.differential(ctx, harness, C.driver_path(DRIVER), hs, ref, life_eq, nontrivial=nontrivial,
                                harness_args=args, driver_args=args,
                                timeout=(150 if ctx.tier == "quick" else 600))   # a chunk takes < 10 s; a hanging implementation is a result
         ctx.log(f"{len(hs)} histories, {ctx.cov['evaluations']} op lines, {len(diffs)} disagreement(s)")
-        C.report_diffs(ctx, diffs, harness, C.driver_path(DRIVER), ref, C.default_eq, "life-" + ctx.prop,
+        C.report_diffs(ctx, diffs, harness, C.driver_path(DRIVER), ref, life_eq, "life-" + ctx.prop,
                        harness_args=args, driver_args=args)
         nested_stage(ctx)
     finally:
@@ -1163,7 +1181,7 @@ def replay(ctx, path):
     C.lake_build([DRIVER])
     ref = make_reference(ctx.prop == "C05")
     args = [ctx.prop]
-    diffs = C.differential(ctx, harness, C.driver_path(DRIVER), [h], ref, C.default_eq, harness_args=args, driver_args=args)
+    diffs = C.differential(ctx, harness, C.driver_path(DRIVER), [h], ref, life_eq, harness_args=args, driver_args=args)
     for d in diffs:
         print(d.text())
         ctx.violation(f"replay: {d.kind}", d.text())
